@@ -30,7 +30,7 @@ m = {
     "name": "govc",
     "path": "/verif/engine",
     "serves_properties": sorted(CLAIMED),
-    "kind_free_text": "own verification-condition generator: symbolic execution of go/ssa (NaiveForm) of /repo per function under contract, contracts as //@ comments in build-tag-guarded files, obligations discharged by z3-new with z3 4.8.12 and cvc5 raced on anything not immediately unsat"
+    "kind_free_text": "own verification-condition generator: symbolic execution of go/ssa (NaiveForm) of /repo per function under contract, contracts as //@ comments in build-tag-guarded files, obligations discharged by an incremental z3 4.8.12 session per function, with z3 5.1.0, z3 4.8.12 and cvc5 raced on standalone files for anything not immediately unsat on anything not immediately unsat"
   }],
   "checks": [],
   "not_applicable": [],
